@@ -236,29 +236,33 @@ class LoopMachine(Machine):
             self.apply_havoc(h, lid, mods, smashed, induct, entry)
             conj = []
 
-            def split(e):
+            def split(e, neg=False):
                 while e.get('kind') in ('ParenExpr', 'ImplicitCastExpr') and e.get('inner'):
                     e = e['inner'][0]
-                if e.get('kind') == 'BinaryOperator' and e.get('opcode') == '&&':
-                    split(e['inner'][0])
-                    split(e['inner'][1])
+                if e.get('kind') == 'BinaryOperator' and e.get('opcode') == ('||' if neg else '&&'):
+                    split(e['inner'][0], neg)          # (De Morgan: `!(node == NULL || remaining == 0)`)
+                    split(e['inner'][1], neg)
+                elif e.get('kind') == 'UnaryOperator' and e.get('opcode') == '!':
+                    split(e['inner'][0], not neg)
                 else:
-                    conj.append(e)
+                    conj.append((e, neg))
             split(cond)
             invs = []
-            for e in conj:
+            for e, neg in conj:
                 try:
                     outs = list(self.rval(h.fork(), e))
                 except Exception:
                     continue
                 if (getattr(self, 'debug_loops', False) or DEBUG):
-                    print('disequality_invariant', lid, [short(cv.t) for _s, cv in outs])
+                    print('disequality_invariant', lid, neg, [short(cv.t) for _s, cv in outs])
                 if len(outs) != 1:
                     continue
                 s2, cv = outs[0]
                 t = cv.t
                 if t[0] == 'lnot' and t[1][0] == 'eq':
                     t = ('ne', t[1][1], t[1][2])
+                if neg:
+                    t = ('ne', t[1], t[2]) if t[0] == 'eq' else ('eq', t[1], t[2]) if t[0] == 'ne' else ('?',)
                 if t[0] != 'ne':
                     continue
                 a, b = s2.canon(t[1]), s2.canon(t[2])
